@@ -469,9 +469,36 @@ func runC20_3(c *core.Ctx) {
 		c.Check(same, site, "writer of "+u.field, u.pos, "same bytes, width and byte order as the reader",
 			"writer puts "+u.field+" into bytes ["+itoa(int(u.lo))+","+itoa(int(u.hi))+") as "+itoa(int(u.width))+"-byte "+u.order+" but the reader takes ["+itoa(int(r.lo))+","+itoa(int(r.hi))+") as "+itoa(int(r.width))+"-byte "+r.order+": unpacking does not return what was packed")
 	}
-	if nw < 6 {
-		c.Violate("gfd", "writers", token.NoPos, "fewer GFD writer statements than fields")
+	// every field gets a value when a GFD is made: NewGFD writes it itself or through UpdateIndexes
+	written := map[string]bool{}
+	viaUpdate := false
+	if nf := tryFn(c, "internal/gfd", "NewGFD"); nf != nil {
+		for _, call := range callsIn(nf.Decl.Body, false) {
+			if cf := flow.CalleeFunc(nf.Info, call); cf != nil && nameOf(cf) == "UpdateIndexes" {
+				viaUpdate = true
+			}
+		}
 	}
+	updates := map[string]bool{}
+	for _, u := range uses {
+		if !u.writer {
+			continue
+		}
+		if u.fn == "NewGFD" || (viaUpdate && u.fn == "UpdateIndexes") {
+			written[u.field] = true
+		}
+		if u.fn == "UpdateIndexes" {
+			updates[u.field] = true
+		}
+	}
+	missing := ""
+	for _, fld := range []string{"Fd", "EventLoopIndex", "ConnMatrixRow", "ConnMatrixColumn", "Sequence"} {
+		if !written[fld] {
+			missing += " " + fld
+		}
+	}
+	c.Check(missing == "" && updates["ConnMatrixRow"] && updates["ConnMatrixColumn"] && nw >= 5, "gfd", "writers", token.NoPos, "NewGFD gives every field a value (directly or through UpdateIndexes); UpdateIndexes writes row and column",
+		"a GFD field is never written when a GFD is made, or UpdateIndexes no longer writes row and column:"+missing)
 	// disjoint
 	var rs []gfdUse
 	for _, r := range readers {
